@@ -3,7 +3,7 @@ PROP = dict(
     legs=[
         dict(driver="pass", quick=500, thorough=30000, shard=50, noshrink=True,
              monitors=["finished_exactly_once", "wellformed_at_stage_boundaries", "finish_iff_tree_done",
-                       "unique_urls_after_preprocess", "redirect_chain_le_max", "asset_depth_le_3", "fetched_once", "redirect_within_limit_always_followed"]),
+                       "unique_urls_after_preprocess", "redirect_chain_le_max", "asset_depth_le_3", "fetched_once", "redirect_within_limit_always_followed", "redirect_target_kept_whatever_its_path"]),
         dict(driver="hops", quick=1200, thorough=60000, shard=600,
              monitors=["outlink_hop_rule", "children_inherit_hops", "redirect_counter_and_limit", "outlink_via_is_parent_page"]),
         dict(driver="pipeadv", quick=14, thorough=500, shard=7, noshrink=True,
